@@ -165,3 +165,83 @@ def obligations():
     for i, sh in enumerate(SHAPES):
         obs.append(Ob('O11.4-ast-grouping-%02d' % i, 'AST grouping after lowering: ' + sh, ob_ast_grouping, ('quick', 'thorough'), 5, dict(shape=sh)))
     return obs
+
+# ----------------------------------------------------------------------------- O11.7 grouping of function *types*: `->` is right-associative
+TYPE_SHAPES = ['A -> B', 'A -> B -> C', '( A -> B ) -> C', 'A -> ( B -> C )', 'A -> B -> C -> D', '( A , B ) -> C -> D', 'A -> ( B , C ) -> D', '( A -> B ) -> C -> D', 'A -> ( B -> C ) -> D']
+def ref_type(toks):
+    """reference grammar: type := atom ('->' type)? ; atom := Name | '(' type (',' type)* ')' (a tuple type) ; a parenthesised list on the left of an arrow is the parameter list"""
+    pos = [0]
+    def atom():
+        t = toks[pos[0]]
+        if t == '(':
+            pos[0] += 1; items = [ty()]
+            while toks[pos[0]] == ',': pos[0] += 1; items.append(ty())
+            assert toks[pos[0]] == ')'; pos[0] += 1
+            return ('tuple', tuple(items))      # goml: a parenthesised type is a tuple type, also with one component; left of `->` it is the parameter list
+        pos[0] += 1; return ('con', t)
+    def ty():
+        a = atom()
+        if pos[0] < len(toks) and toks[pos[0]] == '->':
+            pos[0] += 1; r_ = ty()
+            return ('fn', a[1] if a[0] == 'tuple' else (a,), r_)
+        return a
+    out = ty(); assert pos[0] == len(toks); return out
+def show_type(t):
+    if t[0] == 'con': return t[1]
+    if t[0] == 'tuple': return '(' + ', '.join(show_type(x) for x in t[1]) + ')'
+    if t[0] == 'fn': return '((' + ', '.join(show_type(x) for x in t[1]) + ') -> ' + show_type(t[2]) + ')'
+    return repr(t)
+
+def ob_type_grouping(r, tier, seed):
+    lw = lower_ob.LW(); W = lw.W; tt = W.tt
+    ATY = [a for a in tt.by_name['TypeExpr'] if a.crate == 'ast'][0]; FN = [a for a in tt.by_name['Fn'] if a.crate == 'ast'][0]
+    r.bounds = 'the parameter type of `fn f(x: T) { }` for T each of the shapes %s (solver decision); real parser, real tree builder, real ast::lower' % TYPE_SHAPES
+    r.assumptions = ['oracle: `->` in types is right-associative (`A -> B -> C` takes an A and returns a function), a parenthesised list is a tuple type (also with one component - goml has no grouping parentheses in types) and, left of an arrow, the parameter list',
+                     'rowan red tree modelled on the recorder output of the real build_tree (validated by O4.4-lower-selftest)']
+    def ident(v):
+        while isinstance(v, Agg): v = v.fields[0]
+        return ms.pystr(v)
+    def render(v):
+        v = unbox(v); vn = ATY.variants[v.idx].name; f = dict(zip([x[0] for x in ATY.variants[v.idx].fields], v.fields))
+        if vn == 'TCon': return ('con', '::'.join(ident(s_) for s_ in f['path'].fields[0].items))
+        if vn == 'TTuple': return ('tuple', tuple(render(x) for x in f['typs'].items))
+        if vn == 'TFunc': return ('fn', tuple(render(x) for x in f['params'].items), render(f['ret_ty']))
+        return ('other', vn)
+    KN = {'(': 'LParen', ')': 'RParen', ',': 'Comma', '->': 'Arrow'}
+    def entry(ex):
+        sh = ex.choose([(True, s_) for s_ in TYPE_SHAPES]); ex.notes['shape'] = sh
+        toks = sh.split()
+        specs = [(KN[t], t) if t in KN else ('Ident', t) for t in toks]
+        full = [('FnKeyword', 'fn'), ('Ident', 'f'), ('LParen', '('), ('Ident', 'x'), ('Colon', ':')] + specs + [('RParen', ')'), ('LBrace', '{'), ('RBrace', '}')]
+        lr, root, pd = lower_ob.run_lower(lw, ex, [k for k, _ in full], [t for _, t in full])
+        has, nd, items, ditems = lower_ob.lower_summary(lw, ex, lr)
+        if pd.items if hasattr(pd, 'items') else pd.fields[0].items: return sh, ('parse-diagnostics',)
+        if not has or nd or items != ['Fn']: return sh, ('lower-diagnostics', nd, items)
+        fv = lr.fields[0].fields[0]; it = dict(zip([x[0] for x in lw.AFILE.variants[0].fields], fv.fields))['toplevels'].items[0]
+        params = it.fields[0].fields[[x[0] for x in FN.variants[0].fields].index('params')]
+        if len(params.items) != 1: return sh, ('params', len(params.items))
+        return sh, render(params.items[0].fields[1])
+    res = e2.explore(r, W, entry, [])
+    for p in res:
+        r.cases += 1
+        if p.kind != 'ok':
+            if not any(f.key == 'type-grouping-panic' for f in r.findings): r.findings.append(Finding('type-grouping-panic', 'parse + lower of the type %s: %s' % ((p.notes or {}).get('shape'), p.value[:200]), {}, False, 'not replayed'))
+            continue
+        sh, got = p.value; r.nontrivial += 1
+        want = ref_type(sh.split())
+        if got != want:
+            if any(f.key == 'wrong-type-grouping' for f in r.findings): continue
+            text = 'fn f(x: %s) { }\n' % sh
+            ok_, detail = False, ''
+            try:
+                rc, out, errt = build.run_driver('vreplay', json.dumps({'fn': 'lower_type_shape', 'args': [text]}) + '\n', timeout=60)
+                nat = json.loads(out.splitlines()[0])
+                if 'ok' in nat: ok_ = nat['ok'] != show_type(want); detail = 'native ast::lower on `%s` gives the parameter type %s' % (text.strip(), nat['ok'])
+                else: detail = json.dumps(nat)[:200]
+            except Exception as e_: detail = 'native replay failed: %s' % str(e_)[:160]
+            r.findings.append(Finding('wrong-type-grouping', 'the type `%s` is lowered as %s, the grammar gives %s' % (sh, show_type(got) if got and got[0] in ('con', 'tuple', 'fn') else repr(got), show_type(want)), {'type': sh}, ok_, detail))
+        elif len(r.samples) < 3: r.samples.append({'type': sh, 'ast': show_type(got)})
+
+_obl_114 = obligations
+def obligations():
+    return _obl_114() + [Ob('O11.7-type-grouping', 'function types group to the right; parenthesised lists are tuples / parameter lists', ob_type_grouping, ('quick', 'thorough'), 5, {})]
